@@ -107,18 +107,20 @@ CLAIMS['C11'] = (
 CLAIMS['C03'] = (
     'model_checking',
     'exhaustive enumeration of well-typed build scripts (<=2/3 steps) x both backends; per program explicit exploration of every single-file modification from the built state, executed by the real make / refninja with a strict recording stub toolchain',
-    'All well-typed programs with <=2 (quick, 223) / <=3 (thorough, ~7100) steps over a 14-template step alphabet '
-    '(object files with explicit headers, executables, static/shared libraries consuming sources/objects/libraries/'
-    'extra_deps, build_steps with one/two outputs/always_outdated/files named in the command, copy_file, alias, '
-    'command, test, default, install) are configured for Make and Ninja. For each: full build (one producer per '
+    'All well-typed programs with <=2 (quick, 610) / <=3 (thorough) steps over a 21-template step alphabet '
+    '(object files with explicit headers, executables, static/shared/versioned libraries consuming sources/objects/'
+    'libraries/extra_deps, executables with a precompiled header (also one including a generated header), with '
+    'per-target options, build_steps with one/two outputs/always_outdated/files named in the command/one shell '
+    'line with environment=, copy_file in three modes, alias, command, test, test arguments, default, install) '
+    'are configured for Make and Ninja. For each: full build (one producer per '
     'file, no missing ordering edge: the stub fails on missing inputs), repeated build (no-op up to always-outdated '
     'cones), then from the built state one incremental build per modification of every source, header, data file '
     'and product: the executed step set must equal the steps downstream of the file in the observed data-flow '
     'graph (+declared extra_deps), and for inputs every product must equal a from-scratch build of the modified '
     'tree; default/all/alias/test/install/command goals from a clean tree must run exactly the closure of their '
     'declared members. State = (program, modified file); transitions = builds.',
-    'trusted: refninja (Appendix A), the strict stub toolchain; generated_source, pch and submodules are outside '
-    'this step alphabet',
+    'trusted: refninja (Appendix A), the strict stub toolchain (which imitates gcc for .gch lookup and depfile '
+    'content); generated_source (lex/yacc) and submodules are outside this step alphabet',
     'DESIGN.md §6 C03')
 
 CLAIMS['C13'] = (
